@@ -524,7 +524,7 @@ func (m *Machine) mapDelete(mp *MapObj, k value) {
 func (m *Machine) lookup(f *Frame, in *ssa.Lookup) value {
 	x := m.get(f, in.X)
 	if s, ok := x.(Str); ok {
-		return m.strIndex(s, m.get(f, in.Index).(*Term))
+		return m.strIndex(s, m.widenIndex(in.Index.Type(), m.get(f, in.Index).(*Term)))
 	}
 	mp := x.(*MapObj)
 	vt := in.X.Type().Underlying().(*types.Map).Elem()
